@@ -9,6 +9,9 @@ base = "/tmp/seedrun_%d" % os.getpid()
 wt = base + "/repo"
 subprocess.run("git -C /repo worktree remove --force %s 2>/dev/null; rm -rf %s; mkdir -p %s" % (wt, base, base), shell=True)
 subprocess.run("git -C /repo worktree add --detach %s HEAD >/dev/null 2>&1" % wt, shell=True)
+# the checks run from a snapshot of /verif taken now, so that the machinery can be edited while a long round is running
+SNAP = base + "/verif"
+subprocess.run("rsync -a --exclude build --exclude work --exclude out --exclude replays --exclude .git --exclude benign --exclude seeded %s/ %s/" % (ROOT, SNAP), shell=True)
 env = dict(os.environ, VERIF_REPO=wt, VERIF_BUILD=base + "/build", VERIF_OUT=base + "/out", VERIF_WORKERS=os.environ.get("VERIF_WORKERS", "8"))
 summary = {}
 try:
@@ -24,7 +27,7 @@ try:
         if r.returncode != 0:
             meta["detected_by_quick_check"] = None; meta["check_note"] = "patch does not apply to current HEAD: " + r.stdout[-200:]
         else:
-            p = subprocess.run([os.path.join(ROOT, "verif.py"), "check", prop, "--tier", "quick"], env=env, cwd=ROOT, stdout=subprocess.PIPE, stderr=subprocess.STDOUT, text=True)
+            p = subprocess.run([os.path.join(SNAP, "verif.py"), "check", prop, "--tier", "quick"], env=env, cwd=SNAP, stdout=subprocess.PIPE, stderr=subprocess.STDOUT, text=True)
             classes = [l[len("violation class "):].split(":")[0] for l in p.stdout.splitlines() if l.startswith("violation class ")]
             meta["detected_by_quick_check"] = p.returncode == 1
             meta["check_exit"] = p.returncode
